@@ -55,12 +55,15 @@ def pl(a, b):
     return f"({ql(a)}, {ql(b)})"
 
 
-def drift_tol(tol, n_steps, dtype):
+def drift_tol(tol, n_steps, dtype, prefix=0):
     """tolerance on | |right - left| - pi | after n floating-point steps: the two phases are advanced with
     independent roundings, so their separation performs a rounding random walk (observed: 1e-5 after ~4600
     float32 steps); over the reals it is exactly pi.  Allow 4 ulp(pi) per step on top of the one-step tolerance."""
     per_step = Fraction(1, 10**6) if dtype == np.float32 else Fraction(2, 10**15)
-    return tol + n_steps * per_step
+    # a rollout that starts after `prefix` earlier control steps inherits the separation drift of that prefix: observed 2.7e-3 after
+    # 500 000 float32 steps (5.4e-9 per step, the roundings at the two feet's wrap points differ systematically); allow 2e-8 per prefix step
+    per_prefix = Fraction(2, 10**8) if dtype == np.float32 else Fraction(4, 10**17)
+    return tol + n_steps * per_step + prefix * per_prefix
 
 
 def report(ck, kind, sig, what, case=None):
@@ -450,10 +453,10 @@ def env_part(ck, cases, cj, sigs, tag, env, n_keys, n_steps, seed, cfg_desc):
         p0 = out["phase0"][i]
         dt = np.asarray(env.dt)
         if np.all(fr == out["freq"][i]):
-            lit = f"TrajConst {ql(PI32)} {ql(TOL32)} {ql(drift_tol(TOL32, n_steps, np.float32))} {pl(p0[0], p0[1])} {ql(out['freq'][i])} {ql(dt)} {listl(pl(a, b) for a, b in out['phases'][i])}"
+            lit = f"TrajConst {ql(PI32)} {ql(TOL32)} {ql(drift_tol(TOL32, n_steps, np.float32, prefix=500_000 if bool(out['long_start'][i]) else 0))} {pl(p0[0], p0[1])} {ql(out['freq'][i])} {ql(dt)} {listl(pl(a, b) for a, b in out['phases'][i])}"
         else:  # the frequency is not supposed to change; the per-step predicate still uses the frequency the step saw
             fprev = np.concatenate([[out["freq"][i]], fr[:-1]])
-            lit = (f"Traj {ql(PI32)} {ql(TOL32)} {ql(drift_tol(TOL32, n_steps, np.float32))} {pl(p0[0], p0[1])} {listl(pl(f, dt) for f in fprev)} "
+            lit = (f"Traj {ql(PI32)} {ql(TOL32)} {ql(drift_tol(TOL32, n_steps, np.float32, prefix=500_000 if bool(out['long_start'][i]) else 0))} {pl(p0[0], p0[1])} {listl(pl(f, dt) for f in fprev)} "
                    f"{listl(pl(a, b) for a, b in out['phases'][i])}")
         cases.append(lit)
         ck.count("rollouts-after-a-long-episode-prefix", int(bool(out["long_start"][i])))
